@@ -150,7 +150,7 @@ func c15R1R2(a *A, r *Roles, ar *Arms) {
 			okKey := isTableIDOf(resolve(x.Key), r)
 			// the inserted entry holds tm
 			holds := false
-			if al, ok := resolve(x.Value).(*ssa.Alloc); ok {
+			if al, ok := resolveAt(x.Value, x.Block()).(*ssa.Alloc); ok {
 				for _, ref := range *al.Referrers() {
 					if fa, ok := ref.(*ssa.FieldAddr); ok {
 						for _, rr := range *fa.Referrers() {
@@ -260,8 +260,10 @@ func c15R1R2(a *A, r *Roles, ar *Arms) {
 			k = 1
 		}
 		fail := guardIf.Block().Succs[k]
-		ret, isRet := lastInstr(fail).(*ssa.Return)
-		a.check(isRet && len(ret.Results) == 2 && provablyNonNilErr(ret.Results[1]), "C15-R2", "count-guard@parser[reject]", w.posOf(guardIf), "a disagreeing mapper table ends the stream with an error", "a column-count mismatch does not end in an error return")
+		ret, knownErr := errorExitFromK(fail)
+		isRet := ret != nil
+		okRej := isRet && len(ret.Results) == 2 && (provablyNonNilErr(ret.Results[1]) || knownErr[resolve(ret.Results[1])])
+		a.check(okRej, "C15-R2", "count-guard@parser[reject]", w.posOf(guardIf), "a disagreeing mapper table ends the stream with an error", "a column-count mismatch does not end in an error return")
 	}
 	// name argument order
 	okName := false
